@@ -8,6 +8,7 @@ import NodisVerif.Proofs.ProtoWireBad
 import NodisVerif.Proofs.ProtoWireOut
 import NodisVerif.Proofs.ProtoWireAcct
 import NodisVerif.Model.FeedWire
+import NodisVerif.Proofs.C20ZAddPairs
 /-
   C20 — The change feed replays on a replica.
 
@@ -467,6 +468,43 @@ example : ((geoAdd { listeners := true } 0 [103] [([97], 5), ([98], 7)]).1.feed.
     [(26, [103], ["62", "7"]), (26, [103], ["61", "5"])] := by decide +kernel
 
 end geoadd
+
+/-! ### ZADD, the command (work package Z: the repair of A-48 and of the non-atomic multi-member ZADD)
+
+  The ZADD handler calls the unexported `(*Nodis).zAddPairs` (`Api.zaddPairs`): ONE transaction for all the pairs of
+  one command, one ZADD record per member actually written (a pair skipped by NX / XX / GT / LT or by an equal score
+  emits nothing, so a replica is never given a score the primary refused). It is not a `Call` (the embedded API does
+  not export it); its replay theorem is stated here on its own, with the hypotheses of `replay_call_partial`.
+  Tie: the ZADD commands of this check's closed loop over the network protocol (primary -> Encode/DecodeOp ->
+  ApplyPatch -> replica, dumps equal) and the RESP streams of C04 / C16 (replies, final state). -/
+section zaddPairs
+
+/-- a replica that agrees with the drained, watched primary agrees with it again after applying the records of one
+    ZADD command - every option set, every non-empty list of pairs with representable members and no NaN score -/
+theorem replay_zaddPairs {now : Int} {p r : MState} (hs : Same now p r) (hl : p.listeners = true) (hfd : p.feed = [])
+    (c : Feed.CallInfo) (hc : plainMethod c.method = true) (k : Bytes) (nx xx gt lt ch : Bool)
+    (pairs : List (Bytes × F64)) (hne : pairs ≠ []) (hb : ∀ q ∈ pairs, PairOK q) :
+    ∃ r', Feed.applyAll r now (Feed.emission c (Api.zaddPairs p now k nx xx gt lt ch pairs).2
+        (Api.zaddPairs p now k nx xx gt lt ch pairs).1.feed.reverse) = some r' ∧
+      Same now (Api.zaddPairs p now k nx xx gt lt ch pairs).1 r' :=
+  zaddPairs_replay hs hl hfd c hc k nx xx gt lt ch pairs hne hb
+
+/-- the records are those of the members written, in order: on the watched empty store, `ZADD k NX 1 a 2 a 3 b`
+    emits ZADD a 1 and ZADD b 3 - not the refused second score of a -/
+example : ((Api.zaddPairs (emptyWatched false) 0 [107] true false false false false
+      [([97], F64.ofNat 1), ([97], F64.ofNat 2), ([98], F64.ofNat 3)]).1.feed.reverse.map fun r => (r.typ, r.key, r.args)) =
+    [(26, [107], ["61", toString (F64.ofNat 1)]), (26, [107], ["62", toString (F64.ofNat 3)])] := by decide +kernel
+
+/-- hypotheses satisfiable: the watched empty primary and the empty replica, GT CH with three pairs -/
+example : Same 0 (emptyWatched false) (empty false) ∧ (emptyWatched false).listeners = true ∧ (emptyWatched false).feed = [] ∧
+    plainMethod "ZAdd" = true ∧
+    (∀ q ∈ [(([97] : Bytes), F64.ofNat 5), ([98], F64.ofNat 1), ([110], F64.ofNat 9)], PairOK q) := by
+  refine ⟨same_empty false false 0, rfl, rfl, by decide, ?_⟩
+  intro q hq
+  simp only [List.mem_cons, List.not_mem_nil, or_false] at hq
+  rcases hq with rfl | rfl | rfl <;> exact ⟨by decide +kernel, by decide⟩
+
+end zaddPairs
 /-! ### the wire encoding of change records (patch/patch.go `Op.Encode` / `DecodeOp` over protobuf)
 
   Model: `Model/ProtoWire.lean` — the proto3 wire format restricted to the field kinds of patch/op.proto
